@@ -16,6 +16,7 @@ import DfolsVerif.Gen.KernelFns
 import DfolsVerif.Gen.ModelDecisions
 import DfolsVerif.Proofs.MainLoopPaths
 import DfolsVerif.Proofs.CtrlPaths
+import DfolsVerif.Proofs.SolveMainPaths
 
 namespace Dfols
 namespace C04
@@ -199,6 +200,14 @@ theorem C04_src_controller_no_point_dropped {name : String} {p : SkelL.Prog} (hm
 example : CtrlPaths.methods.length = 8 ∧
     SkelL.wf CtrlPaths.mS Gen.Ctrl.softRestart CtrlPaths.q0 = true ∧ SkelL.size Gen.Ctrl.initialiseCoordinateDirections > 50 := by
   decide +kernel
+
+/-- **what a run returns comes from the final-result query** (whole-function skeleton of solve_main, every execution): the exit taken
+    when the initialisation reports an exit and the return after the main loop are each preceded by exactly one call of
+    `Model.get_final_results` — which returns the better of the saved point and the incumbent (`C17_final_better`), so a point handed
+    to `save_point` on the way out (`C04_src_*_no_point_dropped`) is not lost at the last step -/
+theorem C04_src_returns_via_final_results {tr : List String} {e : SkelL.Ending} (hx : SkelL.Exec Gen.solveMainBody tr e) :
+    (SolveMainPaths.mF.run ⟨0, false⟩ tr).bad = false :=
+  SolveMainPaths.returns_via_final_results hx
 
 end C04
 end Dfols
